@@ -138,6 +138,9 @@ package dns
 // a packed message always contains its 12-octet header
 //@ func (*Msg).packBufferWithCompressionMap [C01 C08 C18 C11]
 //@   callsite "SetExtendedRcode" rcodehi: arg1 == dns.Rcode % 65536 && 0 <= dns.Rcode && dns.Rcode <= 4095 [C01]
+// whenever the message carries an OPT record its extended-RCODE octet is written on every pack, also for an RCODE
+// below 16 (an OPT that still holds the upper bits of an earlier RCODE would otherwise send those)
+//@   assert at "if dns.Response {" rcodeopt: called("IsEdns0") && (callres("IsEdns0") != nil ==> called("SetExtendedRcode")) [C01]
 //@   assert at "if dns.Response {" hdr0: 0 <= dns.Opcode && dns.Opcode <= 15 ==> dh.Bits == dns.Opcode * 2048 + dns.Rcode % 16 [C01]
 //@   assert at "if dns.Authoritative {" hdr1: 0 <= dns.Opcode && dns.Opcode <= 15 ==> dh.Bits == dns.Opcode * 2048 + dns.Rcode % 16 + (dns.Response ? 32768 : 0) [C01]
 //@   assert at "if dns.Truncated {" hdr2: 0 <= dns.Opcode && dns.Opcode <= 15 ==> dh.Bits == dns.Opcode * 2048 + dns.Rcode % 16 + (dns.Response ? 32768 : 0) + (dns.Authoritative ? 1024 : 0) [C01]
